@@ -91,12 +91,27 @@ def crash_shard(shard, nshards, payload):
                     for k in cuts:
                         points.append((i, k))
             points.append((len(steps), None))          # the process completes
+            # the same steps FAILING (no space left / permission denied) instead of the process dying there: k = -errno
+            if bufsize is None:
+                for i in range(len(steps)):
+                    points.append((i, -28))
+                    if tier == 'thorough':
+                        points.append((i, -13))
             for (i, k) in points:
                 job += 1
                 if job % nshards != shard:
                     continue
                 cache.restore_dir(scratch, init)
-                run, res = cache.seq_run(scratch, CLOCK0, [(wb1, [('define', d1, opt)])], crash=(0, i, k), bufsize=bufsize)
+                if k is not None and k < 0:
+                    run, res = cache.seq_run(scratch, CLOCK0, [(wb1, [('define', d1, opt)])], fault=(0, i, -k), bufsize=bufsize)
+                    st.inc('fault_runs')
+                    out1 = res[0][0][2] if res[0] else None
+                    if out1 is not None and out1[0] == 'defined' and cache.judge(d1, out1):
+                        st.violate('fault: the definition that met the failing step runs wrong code',
+                                   'init=%s; define(%s,%s) with step %d (%s %s) failing with errno %d: %s' % (iname, d1, opt, i, steps[i][0], steps[i][1], -k, cache.judge(d1, out1)),
+                                   {'kind': 'crash', 'd1': d1, 'opt': opt, 'init': how, 'crash': [i, k], 'd2': d1, 'tick': 0, 'wb1': wb1, 'wb2': True, 'bufsize': bufsize})
+                else:
+                    run, res = cache.seq_run(scratch, CLOCK0, [(wb1, [('define', d1, opt)])], crash=(0, i, k), bufsize=bufsize)
                 st.inc('crash_runs')
                 st.inc('transitions', len(run.log))
                 crashed = cache.snapshot_dir(scratch) if os.path.isdir(cache.pkts_dir(scratch)) else None
@@ -118,7 +133,9 @@ def crash_shard(shard, nshards, payload):
                             st.add('outcomes', (why2 is None, out[0]))
                             if why2:
                                 at = 'before step %d (%s %s)' % (i, steps[i][0], steps[i][1]) if i < len(steps) else 'after completion'
-                                if k is not None:
+                                if k is not None and k < 0:
+                                    at = 'NOT killed: its step %d (%s %s) failed with errno %d' % (i, steps[i][0], steps[i][1], -k)
+                                elif k is not None:
                                     at = 'inside step %d (write to %s) after %d of %d characters' % (i, steps[i][1], k, steps[i][2])
                                 kind = 'definition fails' if 'definition failed' in why2 else 'runs wrong or truncated code'
                                 rwhy = '(not replayed: an earlier case with this signature was)'
@@ -322,12 +339,13 @@ def run(tier):
         'traces_validated_against_impl': a.n.get('crash_runs', 0) + a.n.get('followups', 0) + b.n.get('schedules', 0),
         'evaluations': a.n.get('crash_runs', 0) + a.n.get('followups', 0) + b.n.get('schedules', 0),
         'distinct_nontrivial': a.count('states') + b.count('states'), 'programs': 5,
-        'crash_points': a.n.get('crash_runs', 0), 'distinct_crash_states': a.count('states'), 'follow_up_definitions': a.n.get('followups', 0),
+        'crash_points': a.n.get('crash_runs', 0), 'failing_steps': a.n.get('fault_runs', 0), 'distinct_crash_states': a.count('states'), 'follow_up_definitions': a.n.get('followups', 0),
         'interleaving_states': b.count('states'), 'schedules_executed': b.n.get('schedules', 0), 'pairs_explored': b.n.get('pairs', 0),
         'pairs_where_the_schedule_cap_was_hit': capped, 'real_process_replays': st.n.get('real_replays', 0),
         'schedules_replayed_with_two_real_processes': st.n.get('real_schedule_replays', 0),
         'rule': 'crash: a definition is killed before every interposed file-system step and after every character of every write (%s) from %d initial '
-                'cache states; from every distinct resulting directory a fresh process defines the same / the same-length sibling / another declaration; '
+                'cache states; every one of those steps is also made to FAIL (no space left on device; thorough: permission denied too) instead of the process dying there; '
+                'from every distinct resulting directory a fresh process defines the same / the same-length sibling / another declaration; '
                 'interleavings: depth-first search over all schedules of the file-system steps of two defining processes with <=1 clock tick, pruned by a '
                 'visited set over (directory contents+mtimes, clock, per process: program counter + digest of all its observations); transitions = '
                 'interposed file-system steps executed' % ('all combinations' if tier == 'thorough' else 'per character for two combinations, first/middle/last for the others',
@@ -353,7 +371,10 @@ def replay(case):
                 run, res = cache.seq_run(scratch, CLOCK0, [(case.get('wb1', True), [('define', case['d1'], case['opt'])])])
                 why = cache.judge(case['d1'], res[0][0][2])
                 return [{'sig': 'undisturbed definition', 'what': why}] if why else []
-            cache.seq_run(scratch, CLOCK0, [(case.get('wb1', True), [('define', case['d1'], case['opt'])])], crash=(0, cr[0], cr[1]), bufsize=case.get('bufsize'))
+            if cr[1] is not None and cr[1] < 0:
+                cache.seq_run(scratch, CLOCK0, [(case.get('wb1', True), [('define', case['d1'], case['opt'])])], fault=(0, cr[0], -cr[1]), bufsize=case.get('bufsize'))
+            else:
+                cache.seq_run(scratch, CLOCK0, [(case.get('wb1', True), [('define', case['d1'], case['opt'])])], crash=(0, cr[0], cr[1]), bufsize=case.get('bufsize'))
             run2, res2 = cache.seq_run(scratch, CLOCK0 + case.get('tick', 0), [(case.get('wb2', True), [('define', case['d2'], case['opt'])])], bufsize=case.get('bufsize'))
             out = res2[0][0][2] if res2[0] else ('failed', 'NoResult', '')
             why = cache.judge(case['d2'], out)
